@@ -156,4 +156,106 @@ example : (step (stdDef .flat false) (runOps (stdDef .flat false) (fresh (stdDef
       ([.eigLb], [.model .plate])] := by
   decide
 
+/-! ### PanelAssembly (two panels + connection, built on the Panel machine) -/
+open Compmech.Lifecycle.Asm in
+/-- Order dependence found: `PanelAssembly.get_k0_conn` returns `self.k0_conn` whenever it is not `None`; a
+different `conn` passed to a later `calc_k0(conn=…)` is silently ignored. -/
+theorem asm_conn_cache_counterexample :
+    let a := stdAsm true
+    ((connOf (astep a (afresh a) (.k0 true)).2).map (·.id)) = some .other ∧
+    ((connOf (astep a (astep a (afresh a) (.k0 false)).1 (.k0 true)).2).map (·.id)) = some .own :=
+  conn_cache_counterexample_aux
+
+open Compmech.Lifecycle.Asm in
+/-- Order dependence found: `get_k0_conn()` before the first `calc_k0()` derives the penalty constants from
+laminates built WITHOUT offset, and that matrix is cached and added by every later `calc_k0` / `calc_kT`. -/
+theorem asm_conn_order_counterexample :
+    let a := stdAsm false
+    let lamOf (o : AOutcome) := (connOf o).map (·.t1)
+    lamOf (astep a (afresh a) (.k0 false)).2 = some [([.ktkr], [.model .plate, .lam (.built .rep .rep .own)])] ∧
+    lamOf (astep a (astep a (afresh a) (.conn false)).1 (.k0 false)).2 =
+      some [([.ktkr], [.model .plate, .lam (.built .rep .rep .zero)])] ∧
+    (astep (stdAsm true) (afresh (stdAsm true)) (.k0 false)).2 =
+      (astep (stdAsm true) (astep (stdAsm true) (afresh (stdAsm true)) (.conn false)).1 (.k0 false)).2 :=
+  conn_order_counterexample_aux
+
+open Compmech.Lifecycle.Asm in
+/-- Which assembly calls can be first; after `calc_k0()` all of them succeed. -/
+theorem asm_fresh_object_characterisation (offsetZero : Bool) :
+    let a := stdAsm offsetZero
+    aallOps.filter (fun op => (astep a (afresh a) op).2.isOk) =
+      [.size, .k0 false, .k0 true, .kG0, .kT, .fext, .conn false, .conn true] ∧
+    aallOps.filter (fun op => (astep a (astep a (afresh a) (.k0 false)).1 op).2.isOk) = aallOps :=
+  asm_fresh_aux offsetZero
+
+/-! ### StiffPanelBay (bay-level `model`, `size`, normalisation of the skin panels' `r`) -/
+open Compmech.Lifecycle.Bay in
+/-- a bay call that returns, returns the token of the call: nothing hidden at bay level enters a result -/
+theorem bay_result_history_independent (d : BDef) (s : BState) (op o : BOp) (h : (bstep d s op).2 = .ok o) : o = op :=
+  bay_result_aux d s op o h
+
+open Compmech.Lifecycle.Bay in
+/-- only `calc_k0, calc_kG0, calc_kM` can be first on a bay; `calc_kA` (`self.size`), `calc_fext`, `uvw_skin`,
+`get_size` (`self.model`) raise; after `calc_k0()` everything but `calc_cA` succeeds -/
+theorem bay_fresh_object_characterisation (stiffFlat : Bool) :
+    let d : BDef := ⟨false, stiffFlat⟩
+    ballOps.filter (fun op => (bstep d (bfresh d) op).2.isOk) = [.k0, .kG0, .kM] ∧
+    (bstep d (bfresh d) .kA).2 = .err .AttributeError ∧ (bstep d (bfresh d) .fext).2 = .err .KeyError ∧
+    (bstep d (bfresh d) .uvw).2 = .err .KeyError ∧ (bstep d (bfresh d) .size).2 = .err .KeyError ∧
+    ballOps.filter (fun op => (bstep d (bstep d (bfresh d) .k0).1 op).2.isOk) =
+      [.size, .k0, .kG0, .kM, .kA, .fext, .uvw] :=
+  bay_fresh_aux stiffFlat
+
+open Compmech.Lifecycle.Bay in
+/-- without a stiffener on a flat bay: after `calc_k0()`, in EVERY later history, every call but `calc_cA` succeeds -/
+theorem bay_ok_after_k0 (d : BDef) (hd : d.stiffFlat = false) (ops : List BOp) (op : BOp) (hop : op ≠ .cA) :
+    (bstep d (brunOps d (bstep d (bfresh d) .k0).1 ops) op).2 = .ok op :=
+  bay_after_k0_aux d hd ops op hop
+
+open Compmech.Lifecycle.Bay in
+/-- Order dependence found (flat bay with a stiffener): `calc_kA` normalises `r` of `panels[0]` only; the
+stiffeners' `_rebuild` asserts `panel1.r == panel2.r`, so `calc_k0()` — fine as first call — raises
+AssertionError after `[calc_cA (raises TypeError, but creates size), calc_kA]`. -/
+theorem bay_assertion_order_counterexample :
+    let d : BDef := ⟨false, true⟩
+    (bstep d (bfresh d) .k0).2 = .ok .k0 ∧
+    (bstep d (brunOps d (bfresh d) [.cA, .kA]) .k0).2 = .err .AssertionError ∧
+    (bstep d (brunOps d (bfresh d) [.k0, .cA, .kA]) .k0).2 = .ok .k0 :=
+  bay_assert_counterexample_aux
+
+open Compmech.Lifecycle.Bay in
+/-- `StiffPanelBay.calc_cA` raises in every state (it passes keywords `Panel.calc_cA` does not accept) -/
+theorem bay_calc_cA_never (d : BDef) (s : BState) : (bstep d s .cA).2.isOk = false :=
+  bay_cA_aux d s
+
+/-! ### ConeCyl (axial-load life cycle, linear-matrix cache) -/
+open Compmech.Lifecycle.Cone in
+/-- If the caller defined an axial load `Fc`, or the definition already ran `_rebuild` (`add_SPL`), results of
+calls that return are history independent. -/
+theorem cone_result_history_independent_partial (d : CDef) (hd : d.fcGiven = true ∨ d.rebuilt = true)
+    (h1 h2 : List COp) (op : COp) (r1 r2 : COutcome) (e1 : (cstep (crunOps (cfresh d) h1) op).2 = r1)
+    (e2 : (cstep (crunOps (cfresh d) h2) op).2 = r2) (k1 : r1.isOk = true) (k2 : r2.isOk = true) : r1 = r2 :=
+  cone_history_independent_aux d hd h1 h2 op r1 r2 e1 e2 k1 k2
+
+open Compmech.Lifecycle.Cone in
+/-- Order dependence found (no axial load defined, nothing rebuilt yet): `lb()` as first call uses the
+documented default `Fc = 1`; after any call that ran `_rebuild` it silently uses a ZERO axial load;
+`static()` after `lb()` carries the `Fc = 1` that `lb` wrote into the definition. -/
+theorem cone_order_dependence_counterexample :
+    let s0 := cfresh ⟨false, false⟩
+    (cstep s0 .lb).2 = .ok .lb (some .one) ∧ (cstep (cstep s0 .static).1 .lb).2 = .ok .lb (some .zero) ∧
+    (cstep (cstep s0 .k0).1 .lb).2 = .ok .lb (some .zero) ∧
+    (cstep s0 .static).2 = .ok .static (some .zero) ∧ (cstep (cstep s0 .lb).1 .static).2 = .ok .static (some .one) :=
+  cone_order_counterexample_aux
+
+open Compmech.Lifecycle.Cone in
+/-- `ConeCyl.calc_fint` / `stress` as first call pass `self.F = None` into a compiled kernel (the interpreter
+dies); `uvw` needs the geometry derived by `_rebuild`; after `calc_k0()` every call succeeds. -/
+theorem cone_fresh_object_counterexample (d : CDef) :
+    (cstep (cfresh d) .fint).2 = .err (if d.rebuilt then .SEGV else .TypeError) ∧
+    (cstep (cfresh d) .stress).2 = .err (if d.rebuilt then .SEGV else .TypeError) ∧
+    (cstep (cfresh d) .uvw).2.isOk = d.rebuilt ∧
+    callOps.filter (fun op => (cstep (cstep (cfresh d) .k0).1 op).2.isOk) = callOps :=
+  cone_fresh_aux d
+
 end Compmech.Lifecycle.C20
